@@ -402,6 +402,7 @@ func Universe(quick bool) []Case {
 	vals = append(vals, ref.Trees(n, ref.LeavesSmall())...)
 	vals = append(vals, ref.Sweep(append(ref.ScalarsFull(), ref.UintsBig()...))...)
 	vals = append(vals, c02.PermutedMaps(ref.LinkOrderKeys, 3)...)
+	vals = append(vals, c02.WideContainers()...)
 	var cases []Case
 	for _, codec := range Codecs {
 		protos := MainProtos(codec)
